@@ -458,6 +458,15 @@ theorem items_stable_step_aux (kind : Kind) (h : Nat → Nat) (s s' : State) (op
     split at hst
     · cases hst; exact stable_unchanged kind s _ _ t id hl (fun f => f) rfl rfl
     · cases hst
+  case notEqual t' u =>
+    split at hst
+    · cases hst; exact stable_unchanged kind s _ _ t id hl (fun f => f) rfl rfl
+    · cases hst
+  case iterBack t' => cases hst; exact stable_unchanged kind s _ _ t id hl (fun f => f) rfl rfl
+  case entryAt t' pos =>
+    split at hst
+    · cases hst; exact stable_unchanged kind s _ _ t id hl (fun f => f) rfl rfl
+    · cases hst
 
 /-! ### histories -/
 
